@@ -163,7 +163,7 @@ where
                 manually_drop.set_len(0);
                 ManuallyDrop::drop(&mut manually_drop);
             }
-            panic!("{:?}", err);
+            std::panic::resume_unwind(err);
         }
     }
 }
